@@ -32,3 +32,18 @@ Theorem C01_topdown_model : forall (n : nat) (ys zs : list (list Q)) (b : asg),
   = amp (tab (map (map Q2R) ys)) (tab (map (map Q2R) zs)) n (lidx n n b).
 Proof. exact topdown_q0_amplitudes. Qed.
 Print Assumptions C01_topdown_model.
+
+(* end to end: if the tables are the angle tree of a state tree (mag, arg) - checked numerically on the logged trees on
+   every run - the circuit prepares m_k e^{i(phi_k - phi_root)} (times the root magnitude 1 of a unit vector); the
+   global phase phi_root is the one TopDownInitialize adds (also checked per run) *)
+Theorem C01_topdown_prepares_state : forall (n : nat) (ys zs : list (list R)) (mag arg : nat -> nat -> R) (b : asg),
+  length ys = n -> length zs = n ->
+  (forall l j, 0 <= mag l j) ->
+  (forall l j, mag l j * mag l j = mag (S l) (2*j)%nat * mag (S l) (2*j)%nat + mag (S l) (2*j+1)%nat * mag (S l) (2*j+1)%nat) ->
+  (forall l j, arg l j = (arg (S l) (2*j)%nat + arg (S l) (2*j+1)%nat) / 2) ->
+  (forall l j, (l < n)%nat -> (j < 2 ^ l)%nat -> tab ys l j = ay mag l j /\ tab zs l j = az arg l j) ->
+  (forall q, (n <= q)%nat -> get b q = false) ->
+  (run (map gR (topdown_gates Rops nzR n ys zs 0)) ket0 b * mag 0%nat 0%nat
+   = mag n (lidx n n b) * cis (arg n (lidx n n b) - arg 0%nat 0%nat))%C.
+Proof. exact topdown_prepares_state. Qed.
+Print Assumptions C01_topdown_prepares_state.
